@@ -309,3 +309,68 @@ func verifLemmaSchemaRoundTrip(data []byte) []byte {
 	}
 	return out
 }
+
+// fixed-point lemmas of the union types (C07): the encoded form of any value decodes, and re-encodes to itself
+func verifLemmaStringOrArrayFixedPoint(v StringOrArray) (first, second []byte) {
+	first, err := v.MarshalJSON()
+	if err != nil {
+		return nil, nil
+	}
+	var w StringOrArray
+	if err := w.UnmarshalJSON(first); err != nil {
+		return first, nil
+	}
+	second, err = w.MarshalJSON()
+	if err != nil {
+		return first, nil
+	}
+	return first, second
+}
+
+func verifLemmaSchemaOrBoolFixedPoint(v SchemaOrBool) (first, second []byte) {
+	first, err := v.MarshalJSON()
+	if err != nil {
+		return nil, nil
+	}
+	var w SchemaOrBool
+	if err := w.UnmarshalJSON(first); err != nil {
+		return first, nil
+	}
+	second, err = w.MarshalJSON()
+	if err != nil {
+		return first, nil
+	}
+	return first, second
+}
+
+func verifLemmaSchemaOrStringArrayFixedPoint(v SchemaOrStringArray) (first, second []byte) {
+	first, err := v.MarshalJSON()
+	if err != nil {
+		return nil, nil
+	}
+	var w SchemaOrStringArray
+	if err := w.UnmarshalJSON(first); err != nil {
+		return first, nil
+	}
+	second, err = w.MarshalJSON()
+	if err != nil {
+		return first, nil
+	}
+	return first, second
+}
+
+func verifLemmaSchemaOrArrayFixedPoint(v SchemaOrArray) (first, second []byte) {
+	first, err := v.MarshalJSON()
+	if err != nil {
+		return nil, nil
+	}
+	var w SchemaOrArray
+	if err := w.UnmarshalJSON(first); err != nil {
+		return first, nil
+	}
+	second, err = w.MarshalJSON()
+	if err != nil {
+		return first, nil
+	}
+	return first, second
+}
